@@ -155,12 +155,63 @@ def judge_vector(ctx, v, r, seed, defaults):
         {k: rec[k] for k in bad}), vector=vec)
 
 
+# ---------------------------------------------------------------------------- the value grammar (FactoryVal)
+def val_vector(v):
+    """An exported FactoryVal configuration in the form the worker runs."""
+    return dict(id=0, kind=v['kind'], by=v['by'], sel=v['sel'], variant='val', written=v['sel'], given=_jmap(v['given']), unknownkey=False,
+                err='none', cls='' if v['custom'] else v['cls'], kwargs=_jmap(v['kwargs']), val=True, custom=bool(v['custom']),
+                custom_file_name='custom_values.py', valcls=v['cls'], par=v['par'], typ=v['typ'], src=v['src'], shape=v['shape'],
+                welltyped=v['welltyped'])
+
+
+def judge_val(ctx, v, r, seed, defaults):
+    """One key of one component written with one raw value of the grammar: the constructor must receive
+    Transform(raw) with its exact Python type, and the object must equal the library-built one."""
+    cls = 'val:%s:%s:%s:%s' % (v['kind'], v['valcls'], v['par'], v['shape'])
+    vec = dict(v, hashseed=seed)
+    paths = lambda k: {'@P1': (SUFFIX.get((v['kind'], k), '%s') % 1), '@P2': (SUFFIX.get((v['kind'], k), '%s') % 2)}
+    tv = v['kwargs'][v['par']]
+    if v['custom']:
+        got = (r.get('attrs') or {}).get('_' + v['par'])
+        ctx.verdict('KeysReachCtor', r['err'] == 'none' and got is not None and typed_matches(tv, got, v['kind'], v['par'], {}), cls=cls,
+                    detail='custom class %s: key %s written %r: constructor received %r (%s %s), specification %r' % (
+                        v['valcls'], v['par'], v['given'][v['par']], got, r['err'], r.get('msg'), tv), vector=vec)
+        return
+    wellformed = r['direct'] == 'ok'
+    if not r['rec']:
+        if r['err'] == 'none' or wellformed:
+            ctx.verdict('KeysReachCtor', False, cls=cls, detail='constructor of %s was never called with the keys of the file (%s %s; constructors called: %s)' % (
+                v['cls'], r['err'], r.get('msg'), r['rec_classes']), vector=vec)
+        return
+    rec = r['rec'][0][1]
+    for k, t in v['kwargs'].items():
+        ok = k in rec and typed_matches(t, rec[k], v['kind'], k, paths(k))
+        if k == v['par'] or not ok:
+            ctx.verdict('KeysReachCtor', ok, cls=cls, detail='%s key %s written %r: constructor received %r, specification %r' % (
+                v['cls'], k, v['given'].get(k), rec.get(k), t), vector=vec)
+    dflt = defaults.get(v['cls'], {})
+    bad = [k for k in rec if k not in v['kwargs'] and k in dflt and k not in FX.OBJECT_PARAMS and not default_matches(dflt[k], rec[k])]
+    ctx.verdict('DefaultsOtherwise', not bad, cls=cls, detail='keys not set in the file differ from the constructor defaults: %s' % (
+        {k: rec[k] for k in bad}), vector=vec)
+    if v['kind'] == 'model':
+        return
+    if (r['err'] == 'none') != wellformed:
+        ctx.verdict('FileEqualsLibrary', False, cls=cls, detail='%s(%s=%r): library construction %s, input file %s %s' % (
+            v['cls'], v['par'], tv, r['direct'], r['err'], r.get('msg')), vector=vec)
+    elif wellformed and 'snapdiff' in r:
+        ctx.verdict('FileEqualsLibrary', not r['snapdiff'], cls=cls, detail='%s built from the file differs from %s(%s=%r) built through the library at %s' % (
+            v['cls'], v['cls'], v['par'], tv, r['snapdiff']), vector=vec)
+
+
 # ---------------------------------------------------------------------------- composite selectors with several mixins
 def _jmap(x):
     return x if isinstance(x, dict) else {}
 
 
 def mix_cls(v):
+    if v.get('subs'):       # sub-sections under a selector of the given form
+        form = 'custom' if v.get('custom') else ('plain' if v['nmix'] == 0 else 'composite')
+        return 'sub:%s:%s:%s:n%d' % (v['kind'], form, v['variant'], len(v['subs']))
     return 'mix:%s:%s:k%d' % (v['kind'], v['variant'], v['nmix'])
 
 
@@ -177,6 +228,14 @@ def judge_mix(ctx, v, r, seed):
         ctx.verdict('UnknownKeyIsError', r['err'] != 'none', cls=cls,
                     detail='unknown key not_a_key under %r was ignored: built %s' % (sel, r.get('cls')), vector=vec)
         return
+    if v['variant'] == 'unknownsubkey':
+        ctx.verdict('UnknownKeyIsError', r['err'] != 'none', cls=cls, detail='unknown key not_a_key in sub-section [[%s]] under %r was ignored: built %s' % (
+            v['subs'][-1]['name'], sel, r.get('cls')), vector=vec)
+        return
+    if v['variant'] == 'unknownsubsel':
+        ctx.verdict('UnknownSelectorIsError', r['err'] != 'none', cls=cls, detail='sub-section [[%s]] with the unknown selector %r under %r was accepted: built %s' % (
+            v['subs'][-1]['name'], v['subs'][-1]['sel'], sel, r.get('cls')), vector=vec)
+        return
     lib = r.get('lib')
     if r['err'] != 'none':
         if lib is None or lib['err'] == 'none':
@@ -184,9 +243,13 @@ def judge_mix(ctx, v, r, seed):
                 sel, r['err'], r.get('msg')), vector=vec)
         return
     want = list(v['bases'])
-    ctx.verdict('CompositeOrder', r['bases'] == want and [c for c in r['mro'] if c in want] == want, cls=cls,
-                detail='%r built bases %s (method resolution %s); specification: ordered application %s' % (
-                    sel, r['bases'], [c for c in r['mro'] if c in want], want), vector=vec)
+    if v['nmix'] == 0:
+        ctx.verdict('ResolvesToSpecClass', r['cls'] == want[0], cls=cls, detail='%r built %s (bases %s), specification says %s%s' % (
+            sel, r['cls'], r['bases'], want[0], ' (the class defined in the python_file)' if v.get('custom') else ''), vector=vec)
+    else:
+        ctx.verdict('CompositeOrder', r['bases'] == want and [c for c in r['mro'] if c in want] == want, cls=cls,
+                    detail='%r built bases %s (method resolution %s); specification: ordered application %s' % (
+                        sel, r['bases'], [c for c in r['mro'] if c in want], want), vector=vec)
     inits = [c for c, _ in r['inits']]
     ctx.verdict('MixinInitOrder', inits == list(v['initorder']), cls=cls,
                 detail='%r: mixins initialised in order %s, specification (evaluated in reverse) %s' % (sel, inits, v['initorder']), vector=vec)
@@ -201,7 +264,7 @@ def judge_mix(ctx, v, r, seed):
     M, A = [c[0] / c[1] for c in v['coef']]
     eff = r['effect']
     x0 = 1000.0
-    if any(c.startswith('Verif') for c in want):        # the probe method exists iff a plugin mixin takes part
+    if any(c.startswith('Verif') for c in want[:-1]):   # the probe method exists iff a plugin mixin takes part
         ok = 'apply' in eff and close(eff['apply'][0], M * x0 + A, rel=1e-12) and close(eff['apply'][1], A, rel=1e-12, abs_=1e-12)
         ctx.verdict('CompositeEffect', ok, cls=cls, detail='%r: the method chain maps %s -> %s and 0 -> %s; specification (first mixin applied last) %s and %s' % (
             sel, x0, eff.get('apply', [None])[0], eff.get('apply', [None, None])[1], M * x0 + A, A), vector=vec)
@@ -216,6 +279,38 @@ def judge_mix(ctx, v, r, seed):
         ok = lib['bases'] == r['bases'] and lib['mro'][1:] == r['mro'][1:] and lib['inits'] == inits and lib['effect'] == eff
         ctx.verdict('FileEqualsLibrary', ok, cls=cls, detail='%r: input file built bases %s / effect %s; enhance_class(%s, %s) gives bases %s / effect %s' % (
             sel, r['bases'], eff, v['basecls'], want[:-1], lib['bases'], lib['effect']), vector=vec)
+    if v.get('subs'):
+        judge_subs(ctx, v, r, cls, vec, sel)
+
+
+def judge_subs(ctx, v, r, cls, vec, sel):
+    """The sub-sections of a section whose selector is plain / composite / custom: one object per sub-section, in the
+    written order, of the specification's class, with its keys typed -- and the graph the library builds."""
+    built = v['builtsubs']
+    g = r.get('graph') or {}
+    names = [b['name'] for b in built]
+    if v['kind'] == 'chemistry':
+        held = g.get('held', [])
+        ok = [h[0] for h in held] == [b['cls'] for b in built] and [h[1] for h in held] == names and all(n in g.get('gases', names) for n in names)
+        got = 'gas objects %s, gases %s' % (held, g.get('gases'))
+    else:
+        got = [c[0] for c in g.get('contribs', [])]
+        ok = got == [b['cls'] for b in built]
+    ctx.verdict('SubsectionsReachComponent', ok, cls=cls, detail='%r with sub-sections %s: the built %s holds %s; specification: %s' % (
+        sel, names, r.get('cls'), got, [(b['name'], b['cls']) for b in built]), vector=vec)
+    subkind = 'gas' if v['kind'] == 'chemistry' else 'contribution'
+    rec = r.get('subrec') or []
+    for i, b in enumerate(built):
+        c, kw = rec[i] if i < len(rec) else ('', {})
+        ok = c == b['cls'] and (subkind != 'gas' or kw.get('molecule_name') == ['str', b['name']]) and all(
+            k in kw and typed_matches(tv, kw[k], subkind, k, {}) for k, tv in _jmap(b['kwargs']).items())
+        ctx.verdict('KeysReachCtor', ok, cls=cls + ':' + b['name'], detail='%r sub-section [[%s]]: constructor %s received %s, specification %s %s' % (
+            sel, b['name'], c, kw, b['cls'], b['kwargs']), vector=vec)
+    lib = r.get('lib')
+    if lib is not None and lib['err'] == 'none' and 'graph' in lib:
+        diff = FX.snap_diff(g, lib['graph'])
+        ctx.verdict('FileEqualsLibrary', not diff, cls=cls + ':graph', detail='%r with sub-sections %s: the graph built from the input file differs from the library-built one '
+                    '(%s + %s of the same objects) at %s' % (sel, names, '+'.join(v['bases']), 'addGas' if subkind == 'gas' else 'add_contribution', diff), vector=vec)
 
 
 # ---------------------------------------------------------------------------- observation / instrument / priors / custom
@@ -313,18 +408,7 @@ def side_checks(ctx, doc, tmp):
 
 # ---------------------------------------------------------------------------- assembled models, CLI == library
 def xsec_dir(tmp):
-    import pickle
-    d = os.path.join(tmp, 'xsec')
-    os.makedirs(d, exist_ok=True)
-    wn = np.linspace(400.0, 2000.0, 33)
-    t = np.array([200.0, 1000.0, 2500.0])
-    p = np.array([1e-6, 1e-2, 1e1])
-    rs = np.random.RandomState(7)
-    for m in ('H2O', 'CH4'):
-        x = 1e-22 * (1 + rs.rand(len(p), len(t), len(wn)))
-        with open(os.path.join(d, m + '.pickle'), 'wb') as f:
-            pickle.dump(dict(name=m, wno=wn, t=t, p=p, xsecarr=x), f)
-    return d
+    return FX.write_xsec(tmp)
 
 
 ASM_VALUES = {
@@ -477,8 +561,9 @@ def run(ctx):
                        'constructor arguments are observed by signature-preserving wrappers installed from outside the repository',
                        'a configuration is well-formed for a component iff the library constructor accepts the typed values directly',
                        'TLC + CommunityModules Json']
-    mixextra = MX.gen_mix_constants(mix, MX.choose_bases(reg, entries, rot=ctx.seed, per_kind=2 if q else 3))
-    sd = make_spec_dir(FX.gen_reg_module(reg, mix, entries, doc, extra=mixextra))
+    mixextra = MX.gen_mix_constants(mix, MX.choose_bases(reg, entries, rot=ctx.seed, per_kind=2 if q else 3),
+                                    subs=MX.choose_subs(reg, entries, quick=q), adders=MX.sub_adders(reg, mix))
+    sd = make_spec_dir(FX.gen_reg_module(reg, mix, entries, doc, extra=mixextra, val_rot=ctx.seed))
     tmp = tempfile.mkdtemp(prefix='c15_')
     try:
         # 1. resolution table of every documented selector, decided on the generated registry
@@ -508,7 +593,7 @@ def run(ctx):
                 if miss:
                     waived_keys.add(cls + ':' + k['name'])
         shutil.rmtree(sd, ignore_errors=True)
-        sd = make_spec_dir(FX.gen_reg_module(reg, mix, entries, doc, waived=waived, waived_keys=waived_keys, extra=mixextra))
+        sd = make_spec_dir(FX.gen_reg_module(reg, mix, entries, doc, waived=waived, waived_keys=waived_keys, extra=mixextra, val_rot=ctx.seed))
         # 2. every configuration, design level
         r = run_tlc('MC_Factory', 'MC_Factory_%s.cfg' % ctx.tier, spec_dir=sd, coverage=True)
         ctx.add_tlc('exhaustive', r)
@@ -538,16 +623,28 @@ def run(ctx):
         finally:
             shutil.rmtree(sd2, ignore_errors=True)
         # 3b. composite selectors with SEVERAL mixins: ordered application (FactoryMix)
-        mr = ctx.check_spec('mixin-composites', 'FactoryMix', 'MC_FactoryMix_%s.cfg' % ctx.tier, spec_dir=sd,
+        # (one exhaustive run checks the invariants and prints the configurations: EX_ = MC_ + Export)
+        mx = ctx.check_spec('mixin-composites+sub-sections', 'FactoryMix', 'EX_FactoryMix_%s.cfg' % ctx.tier, spec_dir=sd, workers=1,
                             need_actions=('Split', 'ResolveMixin', 'Build'))
         ctx.expect_refuted('mixin-order-irrelevant', 'FactoryMix', 'MC_FactoryMix_orderirrelevant_refuted.cfg', 'OrderIrrelevant', spec_dir=sd)
-        mx = tlc(ctx, 'export-mixin-composites', 'FactoryMix', 'EX_FactoryMix_%s.cfg' % ctx.tier, sd, counts=False, workers=1)
         mixvecs = mx.tagged('MIX')
         if not [m for m in mixvecs if m['variant'] == 'plain' and m['nmix'] >= 2 and m['err'] == 'none']:
             raise Machinery('no composite configuration with two or more mixins exported')
+        for kind in ('chemistry', 'model'):
+            for form in (lambda m: m['nmix'] == 0 and not m['custom'], lambda m: m['nmix'] >= 1, lambda m: bool(m['custom'])):
+                if not [m for m in mixvecs if m['kind'] == kind and form(m) and m['variant'] == 'plain' and len(m['subs']) >= 2 and m['err'] == 'none']:
+                    raise Machinery('sub-sections: a selector form (plain / composite / custom) of [%s] was exported without sub-sections' % kind)
+        ctx.expect_refuted('subsections-only-under-plain-selectors', 'FactoryMix', 'MC_FactoryMix_subsdropped_refuted.cfg', 'SubsOnlyUnderPlainSelectors', spec_dir=sd)
         for m in mixvecs:
             m['given'] = _jmap(m['given'])
             m['written'] = '+'.join(m['toks'])
+        # 3c. the value grammar: every value keyword of every selectable class x list lengths 0..3 x element kinds x scalar spellings
+        vr = ctx.check_spec('value-grammar', 'FactoryVal', 'MC_FactoryVal_%s.cfg' % ctx.tier, spec_dir=sd, workers=1, need_actions=('Deliver',))
+        ctx.expect_refuted('one-element-list-collapses', 'FactoryVal', 'MC_FactoryVal_collapse_refuted.cfg', 'ListStaysList', spec_dir=sd, workers=4)
+        valvecs = [val_vector(v) for v in vr.tagged('VAL')]
+        for shape in ('list0empty', 'list1num', 'list1str', 'list2mixed', 'list3num'):
+            if not [v for v in valvecs if v['shape'] == shape and not v['custom']] or not [v for v in valvecs if v['shape'] == shape and v['custom']]:
+                raise Machinery('value grammar: no built-in / custom configuration of shape %s exported' % shape)
         # 4. binding A: exported configurations through the parser under several hash seeds
         ex = tlc(ctx, 'export', 'MC_Factory', 'EX_Factory_%s.cfg' % ctx.tier, sd, counts=False, workers=1)
         vecs = ex.tagged('VEC')
@@ -566,6 +663,8 @@ def run(ctx):
         resolve = sorted({(row['kind'], row['sel']) for row in table[0] if row['kind'] in
                           ('temperature', 'pressure', 'chemistry', 'gas', 'star', 'planet', 'model', 'optimizer', 'instrument')})
         seeds = ctx.bounds['hash_seeds']
+        nplain = len(vecs)
+        vecs = vecs + valvecs
         out = run_workers(vecs, [list(x) for x in resolve], seeds, mix=mixvecs)
         defaults = class_defaults()
         orders = set()
@@ -578,7 +677,9 @@ def run(ctx):
                 ctx.verdict('UniqueResolution', len(c) == 1 and got == c[0], cls='%s:%s' % (kind, sel),
                             detail='factory resolved %r under PYTHONHASHSEED=%s, candidates %s' % (got, s, c), vector=dict(kind=kind, sel=sel, hashseed=s))
             for v, r in zip(vecs, o['results']):
-                if v.get('custom'):
+                if v.get('val'):
+                    judge_val(ctx, v, r, s, defaults)
+                elif v.get('custom'):
                     judge_custom(ctx, v, r, s)
                 else:
                     judge_vector(ctx, v, r, s, defaults)
@@ -588,8 +689,10 @@ def run(ctx):
                 judge_mix(ctx, v, r, s)
             ctx.traces += len(vecs) + len(mixvecs)
         ctx.note('%d composite configurations with 1..3 mixins (plugin mixins registered through ClassFactory.load_plugin) x %d hash seeds' % (len(mixvecs), len(seeds)))
-        ctx.note('%d configurations x %d hash seeds; %d distinct class-set iteration orders observed' % (len(vecs), len(seeds), len(orders)))
-        nill = sum(1 for r in out[seeds[0]]['results'] if r['direct'] not in ('ok', None))
+        ctx.note('%d configurations x %d hash seeds; %d distinct class-set iteration orders observed' % (nplain, len(seeds), len(orders)))
+        ctx.note('%d value-grammar configurations (one key x one raw value: list lengths 0..3 x numbers / strings / mixed, scalar spellings) x %d hash seeds' % (
+            len(valvecs), len(seeds)))
+        nill = sum(1 for r in out[seeds[0]]['results'][:nplain] if r['direct'] not in ('ok', None))
         ctx.note('%d configurations are ill-formed for their component (library constructor rejects the typed values); only argument delivery is compared there' % nill)
         ctx.add_sample(dict(configuration=vecs[len(vecs) // 2]))
         # 5. hard-wired sections
@@ -665,7 +768,10 @@ def replay(ctx, violations):
                 s = v.get('hashseed', 1)
                 out = run_workers([v], [], [s])
                 r = out[s]['results'][0]
-                (judge_custom if v.get('custom') else judge_vector)(ctx, v, r, s, *(() if v.get('custom') else (defaults,)))
+                if v.get('val'):
+                    judge_val(ctx, v, r, s, defaults)
+                else:
+                    (judge_custom if v.get('custom') else judge_vector)(ctx, v, r, s, *(() if v.get('custom') else (defaults,)))
             elif 'cands' in v or ('kind' in v and 'sel' in v):
                 kind, sel = v['kind'], v['sel']
                 c = cands.get((kind, sel.lower() if kind != 'contribution' else sel), [])
